@@ -277,7 +277,7 @@ def run(ctx):
     check_history(items[0][0], items[0][1][:2], a0)
     a1 = par.Acc()
     check_history(items[0][0], items[0][1][:2], a1)
-    if (a0.n, a0.violations, a0.counters) != (a1.n, a1.violations, a1.counters):
+    if (a0.n, sorted(s for s, _d in a0.violations), a0.counters) != (a1.n, sorted(s for s, _d in a1.violations), a1.counters):
         raise HarnessError("non-deterministic result")
     # split big items so that work is balanced: one work unit = (history, configs of one source format)
     work = []
